@@ -1,9 +1,9 @@
 (* C03 - simulation between the token machine of the model (RunCore.step_song / exec_f) and the documented
    semantics (spec/NoteSem.v).  Part 1: the abstraction relation R and the leaf commands. *)
 From Coq Require Import Permutation.
-From Sakura.Model Require Import Base Cursor Length Event Song Token LoopMachine LexCore RunCore Tie.
+From Sakura.Model Require Import Base Cursor Length Event Song Token LoopMachine LexCore RunCore Tie RunRsv.
 From Sakura.Spec Require Import LenSpec NoteSem.
-From Sakura.Proofs Require Import LengthP BlockP NoteSimDefs.
+From Sakura.Proofs Require Import LengthP IdleP BlockP NoteSimDefs.
 Open Scope Z_scope.
 
 (* ------------------------------------------------------------------------------------------------ *)
@@ -138,6 +138,7 @@ Proof. reflexivity. Qed.
 
 Lemma exec_note_quiet s base flag natural len qlen vel timing oct :
   cur_ok s -> s_octave_once s = 0 -> s_harmony_flag s = false -> tr_tie_notes (cur_track s) = [] ->
+  tr_rsv (cur_track s) = rsv_new ->
   exec_note s base flag natural len qlen vel timing oct 0 =
   let trk := cur_track s in
   let notelen := calc_length len (s_timebase s) (tr_length trk) in
@@ -147,9 +148,9 @@ Lemma exec_note_quiet s base flag natural len qlen vel timing oct :
                  (note_len_real notelen (if qlen =? 0 then tr_qlen trk else qlen))
                  (value_range 0 (if vel <? 0 then tr_velocity trk else vel) 127)))).
 Proof.
-  intros Hc Ho Hh Ht. unfold exec_note.
+  intros Hc Ho Hh Ht Hi. rewrite (exec_note_idle s _ _ _ _ _ _ _ _ _ Hc Hi). unfold exec_note_plain.
   set (ev := ev_note _ _ _ _ _). set (nl := calc_length len _ _). cbv zeta.
-  unfold emit_note.
+  unfold emit_note_plain.
   set (s1 := upd_cur s (fun t => tr_set_timepos t (tr_timepos t + nl))).
   change (s_octave_once s1) with (s_octave_once s). rewrite Ho. cbn [Z.eqb].
   change (s_harmony_flag s1) with (s_harmony_flag s). rewrite Hh.
@@ -161,7 +162,7 @@ Qed.
 
 Ltac proj :=
   cbn [tr_timepos tr_channel tr_length tr_octave tr_velocity tr_qlen tr_timing tr_track_key tr_tie_mode tr_tie_value
-       tr_bend_range tr_events tr_tie_notes
+       tr_bend_range tr_events tr_tie_notes tr_rsv
        tr_set_timepos tr_set_channel tr_set_length tr_set_octave tr_set_velocity tr_set_qlen tr_set_timing
        tr_set_track_key tr_set_events tr_push_event
        t_pos t_ch t_len t_oct t_vel t_gate t_timing t_key t_notes set_pos set_len set_oct add_note] in *.
@@ -170,7 +171,7 @@ Ltac proj :=
 Ltac cur_eqs HR :=
   let H := fresh "Hcr" in
   pose proof (R_cur _ _ HR) as H;
-  destruct H as (Epos & Ech & Elen & Eoct & Evel & Egate & Etim & Ekey & Etie & Eperm).
+  destruct H as (Epos & Ech & Elen & Eoct & Evel & Egate & Etim & Ekey & Etie & Ersv & Eperm).
 
 Definition leaf_ok (c : cmd) (t : tok) : Prop :=
   forall (ec : list tok -> res song -> res song) (s : song) (p : perf) (f : nat),
@@ -179,7 +180,7 @@ Definition leaf_ok (c : cmd) (t : tok) : Prop :=
 Lemma track_rel_intro tr t :
   tr_timepos tr = t_pos t -> tr_channel tr = t_ch t -> tr_length tr = t_len t -> tr_octave tr = t_oct t ->
   tr_velocity tr = t_vel t -> tr_qlen tr = t_gate t -> tr_timing tr = t_timing t -> tr_track_key tr = t_key t ->
-  tr_tie_notes tr = [] -> Permutation (notes_of (tr_events tr)) (t_notes t) -> track_rel tr t.
+  tr_tie_notes tr = [] -> tr_rsv tr = rsv_new -> Permutation (notes_of (tr_events tr)) (t_notes t) -> track_rel tr t.
 Proof. intros. unfold track_rel. repeat split; assumption. Qed.
 
 Lemma step_note base acc natural len gate vel timing oct :
@@ -219,7 +220,7 @@ Proof.
   cbn [wf_cmd]. intros Hwf. repeat (apply andb_prop in Hwf; destruct Hwf as [Hwf ?]).
   intros ec s p f HR. cur_eqs HR.
   pose proof HR as (Htr & Hcur & Hlt & Htb & Hkf & Hks & Huk & Hva & Hhf & Hhe & Hoo & Hbf & Hpo).
-  cbn [step_song]. unfold exec_note_n, emit_note.
+  cbn [step_song]. rewrite (exec_note_n_idle s _ _ _ _ _ _ (R_cur_ok s p HR) Ersv). unfold exec_note_n_plain, emit_note_plain.
   eexists. split; [reflexivity|]. cbn [NoteSem.sem]. unfold play.
   apply R_upd_cur; [exact HR|]. proj.
   assert (EL : calc_length (plen len) (s_timebase s) (tr_length (cur_track s)) = len_of p len (t_len (cur p))).
@@ -237,7 +238,8 @@ Ltac leaf_start :=
   intros ec s p f HR; cur_eqs HR;
   pose proof HR as (Htr & Hcur & Hlt & Htb & Hkf & Hks & Huk & Hva & Hhf & Hhe & Hoo & Hbf & Hpo);
   cbn [step_song]; eexists; (split; [reflexivity|]); cbn [NoteSem.sem];
-  (apply R_upd_cur; [exact HR|]); proj; apply track_rel_intro; proj; try assumption.
+  (apply R_upd_cur; [exact HR|]);
+  match goal with Hrs : tr_rsv (cur_track _) = rsv_new |- _ => rewrite ?rsv_clear_idle by exact Hrs end; proj; apply track_rel_intro; proj; try assumption.
 
 Lemma step_rest len : wf_cmd (CRest len) = true -> leaf_ok (CRest len) (TRest 1 (plen len)).
 Proof.
